@@ -846,6 +846,7 @@ def _parse(
     template: Template,
     in_block: str | None = None,
     in_loop: str | None = None,
+    outer_loop: str | None = None,
 ) -> _ChunkList:
     body = _ChunkList([])
     while True:
@@ -946,6 +947,10 @@ def _parse(
                 reader.raise_parse_error(
                     f"{operator} block cannot be attached to {in_block} block"
                 )
+            if operator == "else" and in_block in ("for", "while"):
+                # The else clause of a loop is not part of the loop body:
+                # break/continue there belong to the enclosing loop, if any.
+                in_loop = outer_loop
             body.chunks.append(_IntermediateControlBlock(contents, line))
             continue
 
@@ -1025,7 +1030,7 @@ def _parse(
                 reader.raise_parse_error("block missing name")
             # parse inner body recursively
             if operator in ("for", "while"):
-                block_body = _parse(reader, template, operator, operator)
+                block_body = _parse(reader, template, operator, operator, in_loop)
             elif operator == "apply":
                 # apply creates a nested function so syntactically it's not
                 # in the loop.
